@@ -15,6 +15,7 @@ import (
 	"strconv"
 	"strings"
 	"sync"
+	"time"
 
 	"github.com/meshplus/bitxhub-core/governance"
 	"github.com/meshplus/bitxhub-core/validator"
@@ -164,6 +165,63 @@ type execEngine struct {
 	nodes    []*node // replica 0 is the reference; others (C01) are fed the same blocks
 	sigOn    bool
 	admInit  map[string]*big.Int // admin balances when the history starts (reported normalised)
+	// C01, world option pipe=1: one more replica runs the executor's own goroutine pipeline (Start / ExecuteBlock:
+	// pre-execution stage, execution stage) and is handed every block without waiting for the previous one; its results
+	// are compared one block later
+	pipe     *node
+	pipeH    uint64
+	pipeWait []pipeBlk
+}
+
+type pipeBlk struct {
+	h    uint64
+	txs  []pb.Transaction
+	want string
+}
+
+// pipeDrain waits for the pipelined replica to finish all pending blocks but the newest `keep` and compares them
+func (e *execEngine) pipeDrain(keep int) string {
+	out := ""
+	for e.pipe != nil && len(e.pipeWait) > keep {
+		pb0 := e.pipeWait[0]
+		e.pipeWait = e.pipeWait[1:]
+		deadline := time.Now().Add(60 * time.Second)
+		for e.pipe.ldg.GetChainMeta().Height < pb0.h && time.Now().Before(deadline) {
+			time.Sleep(time.Millisecond)
+		}
+		if e.pipe.ldg.GetChainMeta().Height < pb0.h {
+			out += fmt.Sprintf(" REPLICA-DIVERGED[pipe] block %d not executed within 60s", pb0.h)
+			e.pipeWait = nil
+			break
+		}
+		got := blockObs(e.pipe, pb0.h, pb0.txs)
+		if got != pb0.want {
+			out += fmt.Sprintf(" REPLICA-DIVERGED[pipe] %s", got)
+		}
+	}
+	return out
+}
+
+func copyTxs(txs []pb.Transaction) []pb.Transaction {
+	cp := make([]pb.Transaction, len(txs))
+	for j, tx := range txs {
+		if et, ok := tx.(*ethtypes.EthTransaction); ok {
+			b, _ := et.MarshalBinary()
+			t2 := &ethtypes.EthTransaction{}
+			if err := t2.UnmarshalBinary(b); err != nil {
+				panic(err)
+			}
+			cp[j] = t2
+			continue
+		}
+		b, _ := tx.(*pb.BxhTransaction).Marshal()
+		t2 := &pb.BxhTransaction{}
+		if err := t2.Unmarshal(b); err != nil {
+			panic(err)
+		}
+		cp[j] = t2
+	}
+	return cp
 }
 
 func init() { engines["exec"] = func() engine { return &execEngine{} } }
@@ -174,6 +232,7 @@ func (e *execEngine) close() {
 		rmDir(n.dir)
 	}
 	e.nodes = nil
+	e.stopPipe()
 	if templateDir != "" {
 		rmDir(templateDir)
 	}
@@ -185,6 +244,17 @@ func (e *execEngine) reset() {
 		rmDir(n.dir)
 	}
 	e.nodes = nil
+	e.stopPipe()
+}
+
+func (e *execEngine) stopPipe() {
+	if e.pipe != nil {
+		e.pipeDrain(0)
+		// the executor's goroutines are left to end with the process: Stop() closes the ledger underneath a reader
+		rmDir(e.pipe.dir)
+		e.pipe = nil
+		e.pipeWait = nil
+	}
 }
 
 func kv(ws []string) map[string]string {
@@ -249,6 +319,21 @@ func (e *execEngine) step(ws []string) string {
 			}
 			e.nodes = append(e.nodes, n)
 		}
+		if o["pipe"] == "1" {
+			d := mustTempDir("bxhverif-n-")
+			os.RemoveAll(d)
+			if err := copyDir(templateDir, d); err != nil {
+				fail("copy: %v", err)
+			}
+			n, err := openNode(d, mkConfig(o["audit"] == "1", pt), price)
+			if err != nil {
+				fail("open: %v", err)
+			}
+			if err := n.exec.Start(); err != nil {
+				fail("start: %v", err)
+			}
+			e.pipe, e.pipeH, e.pipeWait = n, n.exec.VerifHeight(), nil
+		}
 		e.admInit = map[string]*big.Int{}
 		for _, a := range adminNames {
 			e.admInit[a] = e.nodes[0].ldg.Copy().GetBalance(acct(a).addr)
@@ -257,7 +342,7 @@ func (e *execEngine) step(ws []string) string {
 	case "block":
 		return e.block(ws[1:])
 	case "q":
-		return e.query(ws[1:])
+		return e.query(ws[1:]) + e.pipeDrain(0)
 	case "restart":
 		i := 0
 		if len(ws) > 1 {
@@ -489,26 +574,20 @@ func (e *execEngine) block(ws []string) string {
 		local = append(local, loc)
 	}
 	res := make([]string, len(e.nodes))
+	if e.pipe != nil {
+		// the pipelined replica gets the block first and is not waited for
+		cp := copyTxs(txs)
+		e.pipeH++
+		blk := &pb.Block{
+			BlockHeader:  &pb.BlockHeader{Version: []byte("1.0.0"), Number: e.pipeH, Timestamp: nextTs()},
+			Transactions: &pb.Transactions{Transactions: cp},
+		}
+		e.pipeWait = append(e.pipeWait, pipeBlk{h: e.pipeH, txs: cp})
+		e.pipe.exec.ExecuteBlock(&pb.CommitEvent{Block: blk, LocalList: local})
+	}
 	for i, n := range e.nodes {
 		// deep copy of the txs for each replica: the executor mutates blocks
-		cp := make([]pb.Transaction, len(txs))
-		for j, tx := range txs {
-			if et, ok := tx.(*ethtypes.EthTransaction); ok {
-				b, _ := et.MarshalBinary()
-				t2 := &ethtypes.EthTransaction{}
-				if err := t2.UnmarshalBinary(b); err != nil {
-					panic(err)
-				}
-				cp[j] = t2
-				continue
-			}
-			b, _ := tx.(*pb.BxhTransaction).Marshal()
-			t2 := &pb.BxhTransaction{}
-			if err := t2.Unmarshal(b); err != nil {
-				panic(err)
-			}
-			cp[j] = t2
-		}
+		cp := copyTxs(txs)
 		n.execBlock(cp, local)
 		res[i] = blockObs(n, n.exec.VerifHeight(), cp)
 	}
@@ -517,6 +596,10 @@ func (e *execEngine) block(ws []string) string {
 		if res[i] != res[0] {
 			out += fmt.Sprintf(" REPLICA-DIVERGED[%d] %s", i, res[i])
 		}
+	}
+	if e.pipe != nil {
+		e.pipeWait[len(e.pipeWait)-1].want = res[0]
+		out += e.pipeDrain(1)
 	}
 	return out
 }
